@@ -1,11 +1,10 @@
 import VermouthProofs.C15_Cli
-import Generated.C15Cli
 /-!
 # C15 — the command-line layer (`bin/martinize2`: `-elastic -ef -el -eu -ermd -ea -ep -em -eb -eunit`)
 
 Theorems about `C15.parseUnit` / `C15.cliBuild`, the model of the option parsing and of the statement that
 builds `vermouth.ApplyRubberBand(...)` (see `VermouthModel/C15_Cli.lean`).  The model is executed against the
-statements extracted from the source on every run; `cli_source_table` pins the constants the model hard-codes
+statements extracted from the source on every run; `cli_source_table` (`VermouthProps/C15_CliTable.lean`) pins the constants the model hard-codes
 (defaults, keyword ↔ option mapping, tests of the `if/elif` chain) to the table re-extracted from the source.
 -/
 namespace C15
@@ -261,39 +260,6 @@ theorem cli_elastic_switch (a : CliArgs) :
     cases hr : ermdOf a with
     | none => exact absurd hr h1
     | some rmd => simp [h2, h3]
-
-/-! ## the constants of the model are those of the source -/
-
-/-- **cli_source_table.** The table re-extracted from `bin/martinize2` / `apply_rubber_band.py` on every run
-(`Generated/C15Cli.lean`) carries the option names, destinations, converters and defaults, the keyword ↔ option
-mapping of the constructor call, the tests of the `if/elif` chain and the processor defaults that the model
-hard-codes. -/
-theorem cli_source_table :
-    CliTable.options = [
-      ⟨"-elastic", "elastic", "", "store_true", "False"⟩,
-      ⟨"-ef", "rb_force_constant", "float", "", "700"⟩,
-      ⟨"-el", "rb_lower_bound", "float", "", "0"⟩,
-      ⟨"-eu", "rb_upper_bound", "float", "", "0.9"⟩,
-      ⟨"-ermd", "res_min_dist", "int", "", "None"⟩,
-      ⟨"-ea", "rb_decay_factor", "float", "", "0"⟩,
-      ⟨"-ep", "rb_decay_power", "float", "", "1"⟩,
-      ⟨"-em", "rb_minimum_force", "float", "", "0"⟩,
-      ⟨"-eb", "rb_selection", "lambda x: x.split(',')", "", "None"⟩,
-      ⟨"-eunit", "rb_unit", "", "", "'molecule'"⟩] ∧
-    CliTable.dfltRat = [("-ef", dfltEf.num, dfltEf.den), ("-el", dfltEl.num, dfltEl.den),
-      ("-eu", dfltEu.num, dfltEu.den), ("-ea", dfltEa.num, dfltEa.den), ("-ep", dfltEp.num, dfltEp.den),
-      ("-em", dfltEm.num, dfltEm.den)] ∧
-    CliTable.callKeywords = [("lower_bound", "args.rb_lower_bound"), ("upper_bound", "args.rb_upper_bound"),
-      ("decay_factor", "args.rb_decay_factor"), ("decay_power", "args.rb_decay_power"),
-      ("base_constant", "args.rb_force_constant"), ("minimum_force", "args.rb_minimum_force"),
-      ("selector", "selector"), ("domain_criterion", "domain_criterion"), ("res_min_dist", "args.res_min_dist")] ∧
-    CliTable.guards = ["args.elastic and args.go", "args.to_ff.startswith('elnedyn')", "args.elastic"] ∧
-    CliTable.unitTests = ["args.rb_unit == 'molecule'", "args.rb_unit == 'all'", "args.rb_unit == 'chain'"] ∧
-    CliTable.processorDefaults = [("res_min_dist", "None"), ("bond_type", "None"),
-      ("selector", "selectors.select_backbone"), ("bond_type_variable", "'elastic_network_bond_type'"),
-      ("res_min_dist_variable", "'elastic_network_res_min_dist'"), ("domain_criterion", "always_true")] ∧
-    CliTable.constants = [("DEFAULT_BOND_TYPE", DEFAULT_BOND_TYPE), ("DEFAULT_RMD", DEFAULT_RMD)] := by
-  decide +kernel
 
 /-! ## non-vacuity -/
 
